@@ -32,7 +32,7 @@ META = {
                      'generated-graph-orders': 10000, 'labels-compared': 5000000},
     },
 }
-SECONDS = {'quick': 60, 'thorough': 1500}
+SECONDS = {'quick': 60, 'thorough': 600}
 RANDOM = {'quick': 2400, 'thorough': 400000}
 GENERATED = {'quick': 240, 'thorough': 20000}
 
